@@ -16,6 +16,7 @@ class CallGraph:
         self.rev = {}
         self.sites = {}  # (caller, callee) -> [line]
         self.indirect = {}  # caller -> [(type string, line)]
+        self.fnptr_targets = {}  # fn pointer type -> {functions reified to it}
         n = 0
         for d, b in crate.mir.items():
             caller = owner(d)
@@ -38,12 +39,19 @@ class CallGraph:
                     if pl is not None:
                         ty = crate.types[b["body"]["locals"][pl["l"]]["t"]]
                     self.indirect.setdefault(caller, []).append((ty, t["s"][0]))
-            # closures / fn items referenced as values (passed to map, etc.) count as potential calls
+            # fn items referenced as values: passed on (map(f), …) they count as potential calls of the
+            # referencing function; reified to a fn pointer and stored in data (`Callable::Procedure(print)`) they
+            # are only *targets* of indirect calls through a pointer of that type
             for blk in b["body"]["blocks"]:
                 for st in blk["stmts"]:
+                    rv = st.get("rv") or {}
+                    reify = rv.get("rv") == "cast" and "ReifyFnPointer" in rv.get("ck", "")
                     for op in _operands(st):
                         if op.get("o") == "const" and "fn" in op:
                             callee = owner(op.get("inst") or op["fn"])
+                            if reify:
+                                self.fnptr_targets.setdefault(rv.get("to", ""), set()).add(callee)
+                                continue
                             self.edges[caller].add(callee)
                             self.rev.setdefault(callee, set()).add(caller)
                 t = blk["term"]
@@ -53,6 +61,15 @@ class CallGraph:
                         self.edges[caller].add(callee)
                         self.rev.setdefault(callee, set()).add(caller)
         self.n_edges = n
+        # indirect calls through a fn pointer reach every function reified to that pointer type
+        for caller, lst in self.indirect.items():
+            for (ty, _line) in lst:
+                t = ty.lstrip("&").replace("mut ", "")
+                for fty, targets in self.fnptr_targets.items():
+                    if fty == t or fty in ty:
+                        for callee in targets:
+                            self.edges.setdefault(caller, set()).add(callee)
+                            self.rev.setdefault(callee, set()).add(caller)
         # calls that stay on a trait method declaration (generic callers such as Product<Factor>::power calling
         # Factor::power) may reach every implementation of that method in the crate
         trait_items = {}
